@@ -122,6 +122,12 @@ fn path_src(root: &str, d: usize, f: PForm) -> String {
 }
 
 /// (name, template around `$` = has(..) expression, maps the has result)
+/// expressions around an access `$` that hand its failure on
+const WRAPPERS: [&str; 16] = [
+    "int($)", "uint($)", "double($)", "string($)", "bool($)", "bytes($)", "type($)", "size($)", "($).size()", "abs($)", "max($, 1)", "f\"{$}\"",
+    "[$][0]", "{'k': $}.k", "($) + 1", "($) == 1",
+];
+
 const HAS_CTX: [&str; 9] = [
     "$",
     "[1].map(i, $)[0]",
@@ -270,6 +276,16 @@ fn run_path(idx: u64, acc: &mut Acc) {
         let src = ctx.replace('$', &h_src);
         let want = has_ctx_expected(ctx, &h);
         check(acc, &format!("{} has in `{}`", site, ctx), &src, &bdesc, &want, &b);
+    }
+    // an absent operand makes every expression built on it absent: conversions, calls, operators,
+    // an f-string hole and collection literals around the path
+    if matches!(cls, Access::Absent) {
+        for w in WRAPPERS {
+            let inner = w.replace('$', &e);
+            check(acc, &format!("{} has around `{}`", site, w), &format!("has({})", inner), &bdesc, &Ok(V::Bool(false)), &b);
+            check(acc, &format!("{} has around `{}` in a macro body", site, w), &format!("[1].map(i, has({}))[0]", inner), &bdesc, &Ok(V::Bool(false)), &b);
+            check(acc, &format!("{} coalesce around `{}`", site, w), &format!("coalesce({}, 'dflt')", inner), &bdesc, &Ok(V::s("dflt")), &b);
+        }
     }
     // the root reached through a loop variable (only when there is a root value)
     if root.is_some() {
@@ -549,7 +565,7 @@ pub fn run(t: Tier) -> i32 {
     let mut rep = Report::new(ID, t, "exploration");
     let l = Lists::new(t);
     rep.rule = format!(
-        "paths: field paths r, r.a, .. r.a.b.c.d in 4 spellings (dots, ['k'] indices, alternating, variable keys) x every binding configuration (the chain stops at any level with the root unbound / a field missing, null, an int, a string, a list or an empty map; or reaches the leaf, which is null, a value, or a map) x has() in 9 contexts (top level, map and filter bodies, ?:, nested has, !, &&, all, nested exists) and through a loop variable, and coalesce(e, 'dflt') in 5 contexts and through a loop variable; expected from the two-class lattice absent/other; for a field looked up on a non-map (class not fixed by the statement) the implementation's own top-level has() answer (false or failure, never true) must be reproduced in every context and by coalesce. coalesce-lists: every argument list of length 0..{} over 14 items (present, null, unbound, missing field/index, null field, foldable and run-time division by zero, type error, bad index, call-recording present/null) in 4 contexts: result and the exact set of evaluated call-recording arguments. names: bare identifiers spelled like built-in functions/macros (size, max, filter, map, has, ...) unbound / bound / bound to null, in all has and coalesce contexts. Non-trivial = every enumerated configuration; distinct by index",
+        "paths: field paths r, r.a, .. r.a.b.c.d in 4 spellings (dots, ['k'] indices, alternating, variable keys) x every binding configuration (the chain stops at any level with the root unbound / a field missing, null, an int, a string, a list or an empty map; or reaches the leaf, which is null, a value, or a map) x has() in 9 contexts (top level, map and filter bodies, ?:, nested has, !, &&, all, nested exists) and through a loop variable, and coalesce(e, 'dflt') in 5 contexts and through a loop variable; around an absent access has() is false and coalesce falls through also under 16 wrappers that hand the failure on (every conversion, size as function and method, abs, max, an f-string hole, a list and a map literal, + and ==), at top level and in a macro body; expected from the two-class lattice absent/other; for a field looked up on a non-map (class not fixed by the statement) the implementation's own top-level has() answer (false or failure, never true) must be reproduced in every context and by coalesce. coalesce-lists: every argument list of length 0..{} over 14 items (present, null, unbound, missing field/index, null field, foldable and run-time division by zero, type error, bad index, call-recording present/null) in 4 contexts: result and the exact set of evaluated call-recording arguments. names: bare identifiers spelled like built-in functions/macros (size, max, filter, map, has, ...) unbound / bound / bound to null, in all has and coalesce contexts. Non-trivial = every enumerated configuration; distinct by index",
         t.pick(4, 6)
     );
     rep.run_family(Family::new("paths", 5 * 6 * TERMS.len() as u64 * PFORMS.len() as u64, run_path));
